@@ -1,6 +1,8 @@
 package goDB
 
 import (
+	"context"
+
 	"github.com/els0r/goProbe/v4/pkg/goDB/info"
 	"github.com/els0r/goProbe/v4/pkg/goDB/storage/gpfile"
 	v "github.com/els0r/goProbe/v4/zz_verif"
@@ -109,4 +111,25 @@ func VerifC25_Leftovers() {
 	v.Reach("listed")
 	v.Assert(err == nil, "listing interfaces succeeds")
 	v.Assert(len(ifaces) == 1 && ifaces[0] == "eth0", "a leftover staging directory of an interrupted merge is not listed as an interface")
+}
+
+// VerifC25_FreshStage: a merge that runs after an interrupted one stages its work in a fresh, empty
+// directory - never on top of what the interrupted merge left in the destination.
+func VerifC25_FreshStage() {
+	v.ResetTree()
+	for _, p := range []string{
+		"/src/eth0/2023/11/1700006400_a",
+		"/dst/eth0/2023/11/1700006400_b",
+		"/dst/.gpdb-merge-stage-1/eth0/2023/11/1700006400_x",    // left by an interrupted merge
+		"/dst/.gpdb-merge-stage-work/eth0/2023/11/1700006400_x", // ditto, under a fixed name
+	} {
+		v.Assert(v.MkdirAll(p, 0o755) == nil, "setup")
+	}
+	verifC24Summary = true
+	verifC24Copies, verifC24Rebuilds, verifC24Commits, verifC24StageDirty = 0, 0, 0, false
+	_, err := MergeDatabases(context.Background(), MergeOptions{SourcePath: "/src", DestinationPath: "/dst", Overwrite: v.Bool()})
+	verifC24Summary = false
+	v.Reach("merged after an interrupted merge")
+	v.Assert(err == nil, "the merge succeeds")
+	v.Assert(!verifC24StageDirty, "a merge stages its work in a fresh directory, not in what an interrupted merge left behind")
 }
